@@ -25,6 +25,8 @@ func solverSpecs(timeoutS int) []SolverSpec {
 		{"z3-5.1.0", []string{"z3-new", "-T:" + fmt.Sprint(timeoutS), "-smt2"}},
 		{"cvc5-1.0", []string{"cvc5", "--tlimit=" + ms, "--lang=smt2"}},
 		{"z3-4.8.12", []string{"z3", "-T:" + fmt.Sprint(timeoutS), "-smt2"}},
+		// bit-vectors translated to integer arithmetic: decides division / remainder goals that bit-blasting cannot
+		{"cvc5-1.0-intblast", []string{"cvc5", "--tlimit=" + ms, "--lang=smt2", "--solve-bv-as-int=sum"}},
 	}
 }
 
@@ -95,9 +97,12 @@ type caseRes struct {
 }
 
 // runScript decides one SMT script: z3-new alone first, then a race of all three solvers.
-func (s *Solver) runScript(path, script string) caseRes {
+func (s *Solver) runScript(path, script string, skipStage1 bool) caseRes {
 	cr := caseRes{solverMs: map[string]int64{}}
 	specs := solverSpecs(s.timeoutS)
+	if skipStage1 {
+		return s.race(path, script, specs, cr)
+	}
 	finish := func(ans, solver, out string, ms int64) {
 		cr.answer, cr.solver, cr.ms, cr.out = ans, solver, ms, out
 		if ans == "sat" {
@@ -117,6 +122,20 @@ func (s *Solver) runScript(path, script string) caseRes {
 	if ans == "unsat" || ans == "sat" {
 		finish(ans, s1.Name, out, ms)
 		return cr
+	}
+	return s.race(path, script, specs, cr)
+}
+
+// race runs all solver configurations on the script; the first definite answer wins.
+func (s *Solver) race(path, script string, specs []SolverSpec, cr caseRes) caseRes {
+	finish := func(ans, solver, out string, ms int64) {
+		cr.answer, cr.solver, cr.ms, cr.out = ans, solver, ms, out
+		if ans == "sat" {
+			cr.model = map[string]string{}
+			for _, m := range valueRe.FindAllStringSubmatch(out, -1) {
+				cr.model[strings.Trim(m[1], "|")] = m[2]
+			}
+		}
 	}
 	scriptALL := path + ".cvc5.smt2"
 	os.WriteFile(scriptALL, []byte("(set-logic ALL)\n"+strings.Replace(script, "(set-option :produce-models true)\n", "", 1)), 0o644)
@@ -196,7 +215,49 @@ func (s *Solver) Solve(u *Unit, o *Obligation) *Result {
 	if o.IsCover {
 		cases = [][]*Term{asserts}
 	} else {
+		// first the whole query with a short limit; the case split is for queries that need it
+		p0 := NewPrinter(tb)
+		whole := p0.Script(asserts, gv, "")
+		u.mu.Unlock()
+		s.mu.Lock()
+		s.n++
+		id0 := s.n
+		s.mu.Unlock()
+		path0 := filepath.Join(s.dir, fmt.Sprintf("q%05d.smt2", id0))
+		os.WriteFile(path0, []byte("; "+o.Name+"\n"+whole), 0o644)
+		s.sem <- struct{}{}
+		ctx0, cancel0 := context.WithTimeout(context.Background(), time.Duration(s.stage1S)*time.Second)
+		a0, out0, ms0 := runOne(ctx0, SolverSpec{"z3-5.1.0", []string{"z3-new", fmt.Sprintf("-T:%d", s.stage1S), "-smt2"}}, path0)
+		cancel0()
+		<-s.sem
+		r.Ms += ms0
+		r.SolverMs["z3-5.1.0"] += ms0
+		r.VCBytes = len(whole)
+		if a0 == "unsat" {
+			os.Remove(path0)
+			r.Status, r.Answer, r.Solver, r.Cases = "discharged", "unsat", "z3-5.1.0", 1
+			return r
+		}
+		if a0 == "sat" {
+			r.Status, r.Answer, r.Solver, r.Cases, r.Output, r.Script = "failed", "sat", "z3-5.1.0", 1, out0, path0
+			r.Model = map[string]string{}
+			for _, m := range valueRe.FindAllStringSubmatch(out0, -1) {
+				r.Model[strings.Trim(m[1], "|")] = m[2]
+			}
+			u.mu.Lock()
+			if u.failAsserts == nil {
+				u.failAsserts = map[*Obligation][]*Term{}
+			}
+			u.failAsserts[o] = asserts
+			u.mu.Unlock()
+			return r
+		}
+		os.Remove(path0)
+		u.mu.Lock()
 		cases = splitCases(tb, asserts, u.branchConds)
+		if len(cases) == 1 {
+			// nothing to split: go straight to the race on the whole query
+		}
 	}
 	var scripts []string
 	for _, c := range cases {
@@ -233,7 +294,7 @@ func (s *Solver) Solve(u *Unit, o *Obligation) *Result {
 		s.mu.Unlock()
 		path := filepath.Join(s.dir, fmt.Sprintf("q%05d.smt2", id))
 		os.WriteFile(path, []byte("; "+o.Name+"\n"+script), 0o644)
-		cr := s.runScript(path, script)
+		cr := s.runScript(path, script, !o.IsCover && len(scripts) == 1)
 		r.Ms += cr.ms
 		for k, v := range cr.solverMs {
 			r.SolverMs[k] += v
